@@ -409,6 +409,44 @@ class Tracked:
         return [self.obj.at(self.n0 + i) for i in range(c.as_long())]
 
 
+def loop_roles(cls: type) -> dict[tuple[str, int], str]:
+    """(qualname, loop ordinal) -> role, for every loop of the class that has a role: decided by
+    what the loop walks (source order inside each function as in pyvc.loops.loop_key)."""
+    import ast
+    import inspect
+    import textwrap
+    out: dict[tuple[str, int], str] = {}
+    n_sorted = 0
+    for name, fn in vars(cls).items():
+        if not inspect.isfunction(fn):
+            continue
+        node = ast.parse(textwrap.dedent(inspect.getsource(fn))).body[0]
+        ordinal = -1
+
+        def visit(n: Any) -> None:
+            nonlocal ordinal, n_sorted
+            if isinstance(n, (ast.For, ast.AsyncFor, ast.While)):
+                ordinal += 1
+                role = None
+                it = ast.unparse(n.iter) if not isinstance(n, ast.While) else ""
+                if isinstance(n, ast.While) and "depth" in ast.unparse(n.test):
+                    role = "levels"
+                elif it.startswith("found["):
+                    role = "stacks"
+                elif it == "sessions":
+                    role = "probe"
+                elif it.startswith("sorted(") and "negative" in it:
+                    role = "report-negative"
+                elif it.startswith("sorted("):
+                    role = "report"
+                if role and name != "_recover_stack":
+                    out[(fn.__qualname__, ordinal)] = role
+            for c in ast.iter_child_nodes(n):
+                visit(c)
+        visit(node)
+    return out
+
+
 def main_harness(reset: bool):
     def harness(I: Interp) -> None:
         sessions_mod, S, E = mods()
@@ -471,6 +509,7 @@ def main_harness(reset: bool):
             "db_handler": te.stub("db") if has_db else NONE})
 
         # ---- tracked containers and their element invariants --------------------------------
+        kname: dict[str, str] = {}
         tr = {n: Tracked(n) for n in ("frontier", "positive_results", "negative_results",
                                       "searched_sessions", "activated_sessions", "result")}
         st: dict[str, Any] = {}
@@ -619,7 +658,7 @@ def main_harness(reset: bool):
                 out.append(("new-level-starts-empty", _b(
                     isinstance(fl, VList) and fl.items is not None and len(fl.items) == 0)))
                 out.append(("iterates-the-frontier-of-the-previous-level", z3.BoolVal(
-                    st.get("iter1") is models.getitem(
+                    st.get("iter:stacks") is models.getitem(
                         I2, fr.env["found"], VInt(cur_depth(fr) - 1)))))
             if ph == "preserved":
                 check_types(I2, fr, "stack-loop")
@@ -662,7 +701,7 @@ def main_harness(reset: bool):
                 st["probe_loop_entered"] = True
             if ph != "preserved":
                 return out
-            k = models.as_int(I2, fr.env["__k2"]) - 1
+            k = models.as_int(I2, fr.env[kname["probe"]]) - 1
             s = k + 1  # sessions[k]
             out.append(("probe-loop-element-is-the-session-number",
                         models.as_int(I2, fr.env["session"]) == s))
@@ -754,7 +793,7 @@ def main_harness(reset: bool):
 
         def inv3(I2: Interp, fr: Frame) -> list[tuple[str, Any]]:
             ph = I2.ghost["__loop_phase"]
-            k = models.as_int(I2, fr.env["__k3"])
+            k = models.as_int(I2, fr.env[kname["report"]])
             res = I2.getattr_v(scanner, "result")
             prev = models.as_int(I2, fr.env["previous_session"])
             n = res.length()
@@ -767,7 +806,7 @@ def main_harness(reset: bool):
                 out.append(("last-reported-session-is-the-entry-just-handled", k == 0))
             if ph == "init":
                 out.append(("report-loop-walks-the-sorted-positive-entries", z3.BoolVal(
-                    st.get("iter3") is st.get("sorted_pos") and st.get("iter3") is not None)))
+                    st.get("iter:report") is st.get("sorted_pos") and st.get("iter:report") is not None)))
             if ph == "preserved":
                 new = tr["result"].appended(I2, res)
                 n0 = tr["result"].n0
@@ -803,7 +842,6 @@ def main_harness(reset: bool):
             return [("the-not-activated-report-leaves-the-result-alone",
                      I2.getattr_v(scanner, "result").length() == st["result_n_at_4"])]
 
-        q = "SessionsScanner.main"
         lc0 = loops.LoopContract(havoc0, inv0, variant0)
 
         def exit0(I2: Interp, fr: Frame) -> list[tuple[str, Any]]:
@@ -812,12 +850,19 @@ def main_harness(reset: bool):
             return [("the-search-stops-only-at-the-depth-limit-or-with-an-empty-frontier",
                      z3.Or(cd >= depth.t, fl.length() == 0))]
         lc0.on_exit = exit0  # type: ignore[attr-defined]
-        I.ex.loop_contracts[(q, 0)] = lc0
-        I.ex.loop_contracts[(q, 1)] = loops.LoopContract(havoc1, inv1)
-        I.ex.loop_contracts[(q, 2)] = loops.LoopContract(havoc2, inv2)
-        I.ex.loop_contracts[(q, 3)] = loops.LoopContract(havoc3, inv3)
-        I.ex.loop_contracts[(q, 4)] = loops.LoopContract(havoc4, inv4)
-        I.ghost["__iter_hook"] = lambda key, it: st.__setitem__(f"iter{key[1]}", it)
+        # the loop contracts are attached by the *role* of a loop (what it walks), wherever in
+        # the class the loop lives - a report loop extracted into a helper method keeps its
+        # contract
+        by_role = {"levels": lc0, "stacks": loops.LoopContract(havoc1, inv1),
+                   "probe": loops.LoopContract(havoc2, inv2),
+                   "report": loops.LoopContract(havoc3, inv3),
+                   "report-negative": loops.LoopContract(havoc4, inv4)}
+        for (qn, ordinal), role in loop_roles(sessions_mod.SessionsScanner).items():
+            I.ex.loop_contracts[(qn, ordinal)] = by_role[role]
+            kname[role] = f"__k{ordinal}"
+        roles = loop_roles(sessions_mod.SessionsScanner)
+        I.ghost["__iter_hook"] = lambda key, it: st.__setitem__(
+            "iter:" + roles.get(key, "?"), it)
         try:
             I.await_v(I.call_v(I.getattr_v(scanner, "main"), [], {}))
         except PyExc as e:
